@@ -36,6 +36,7 @@ class Mut:
     expect: str = "fire"  # "fire" | "silent"
     rule: Optional[str] = None  # rule expected to fire (prefix match), None = any
     count: int = 1  # which occurrence (1-based) if `old` occurs several times; 0 = must be unique
+    more: tuple = ()  # further (file, old, new) edits applied together (cooperating sites)
 
 
 def _apply(src: str, m: Mut) -> Optional[str]:
@@ -76,6 +77,12 @@ def _run_one(args) -> dict:
                 (tmp / "doc" / "source").mkdir(parents=True, exist_ok=True)
                 shutil.copy(docsrc, tmp / "doc" / "source" / "output.rst")
         (tmp / m.file).write_text(new)
+        for f2, old2, new2 in m.more:
+            p2 = tmp / f2
+            t2 = p2.read_text()
+            if old2 not in t2:
+                return {"id": m.id, "status": "not-applicable", "why": f"anchor text of a cooperating edit not found in {f2}"}
+            p2.write_text(t2.replace(old2, new2, 1))
         try:
             import ast as _ast
 
